@@ -1,4 +1,15 @@
-"""C04  And/Or/Not compose query results as intersection, union and complement."""
+"""C04  And/Or/Not compose query results as intersection, union and complement.
+
+`applye2e` is answered on the model side by `applyQM`: the `_apply` composition over the C01/C02 index models
+that ran the same `doc` history (theorem `c04_end_to_end` says it equals the specification-level `applyQ`,
+which the driver prints as the specification answer of that command).
+
+Mutation sanity check (scratch copies, quick tier, seed 0; all reported VIOLATION with a failing input):
+  M1 `Query.union`: right non-empty and left empty returns left          M2 `Not._apply` forgets `negate()`
+  M3 `BaseIndexMixin._negate` short-cut returns `indexed()` (drops value-less documents)
+  M4 `Ge.negate` returns `Le`                                            M5 `Query.intersect` returns left when
+     right is empty
+"""
 from lib import qtree
 from lib.core import exc_name, idset
 
@@ -14,7 +25,9 @@ RULE = ("catalogs of 1-4 real indexes (field, keyword, facet, text) with 0-25 do
         "Total (every document has a non-empty value in every index) and exercise the complement clause, the "
         "other half leave values out (then only And/Or clauses are checked against the specification); random "
         "trees of depth <= 4, arity 1-4, repeated operands, 7% comparators the index does not implement; "
-        "observed through execute(optimize=False), _apply, CatalogQuery.query and the &/| operators, plus "
+        "half of the catalogs re-index some documents (new value / no value) before the queries; "
+        "observed through execute(optimize=False), _apply, CatalogQuery.query and the &/| operators (one entry "
+        "point in six is answered on the model side by the composed C01/C02 index models), plus "
         "the shape of the constructed tree and of q.negate(). non-trivial = tree has a boolean node and the "
         "case contains a non-empty and two different answers")
 LEVEL_TEXT = ("Lean 4 theorems by induction over the query tree for every catalog: And = intersection, Or = union "
@@ -34,10 +47,24 @@ def gen(rng, tier, idx):
     if rng.random() < 0.04:
         cfg[0] = ["cfg", "family", 32]
     cmds = list(docs)
+    if docs and rng.random() < 0.5:
+        # histories, not just fills: some documents are indexed again with another value (or, on
+        # non-Total catalogs, without one) - the index models of C01/C02 run the same history (`applye2e`)
+        for _ in range(rng.randrange(1, 5)):
+            _, i, d = rng.choice(docs)[:3]
+            k = kinds[i]
+            if not total and rng.random() < 0.25:
+                cmds.append(["doc", i, d, "none"])
+            elif k == "field":
+                cmds.append(["doc", i, d, rng.randrange(10)])
+            elif k == "text":
+                cmds.append(["doc", i, d] + [rng.randrange(len(qtree.WORDS)) for _ in range(rng.randrange(1, 5))])
+            else:
+                cmds.append(["doc", i, d] + sorted(set(rng.randrange(6) for _ in range(rng.randrange(1, 4)))))
     for _ in range(rng.randrange(3, 9)):
         t = qtree.gen_tree(rng, kinds, rng.randrange(1, 5))
         toks = qtree.flat_tokens(t)
-        cmds.append([rng.choice(["apply", "apply", "applyq", "applyraw", "applyops"])] + toks)
+        cmds.append([rng.choice(["apply", "apply", "applyq", "applyraw", "applyops", "applye2e"])] + toks)
         if rng.random() < 0.3:
             cmds.append(["shape"] + toks)
         if rng.random() < 0.3:
@@ -78,7 +105,9 @@ def impl_run(hyp, case):
                 out.append("ok")
                 continue
             t = qtree.parse_tokens(list(c[1:]))
-            if op == "apply":
+            if op in ("apply", "applye2e"):
+                # applye2e: the model side evaluates the tree over the C01/C02 index *models* fed with the
+                # same doc lines (applyQM), specification side = applyQ over the tables (c04_end_to_end)
                 q = im.build(t)
                 out.append(qtree.run_ids(lambda: q.execute(optimize=False)))
             elif op == "applyraw":
